@@ -22,7 +22,12 @@ RULE = ("(a) events.get_key in the three naming modes side by side on the decode
         "cuts, bytes naming = the bytes, names are that mode's names; (c) keymap[name] for EVERY valid configuration "
         "name (C-a..C-z, M-<each printable non-space ASCII character>, F1..F12, every key of SPECIALS), the unbound key "
         "'' and a catalogue of malformed names. non-trivial = non-empty input; distinct = distinct input")
+GENERATORS = ("gen/gen_pure.py",)
+PURE_HELPERS = ('_key_name',)
 TRUSTED = [
+    "translator gen/gen_pure.py (dumps the Python AST of _key_name / get_key node by node into coq/Gen/Pure.v), the reference "
+    "semantics of that Python subset coq/Spec/PyMini.v and the module context coq/Spec/PyEnv.v (oracle: bytes.decode = the codec "
+    "model), run against CPython on enumerated arguments in every check",
     "Coq 8.16.1 kernel incl. vm_compute (no native_compute); Print Assumptions: closed under the global context",
     "translator gen/gen_tables.py (CURTSIES_NAMES, CURSES_NAMES, KEYMAP_PREFIXES, MAX_KEYPRESS_SIZE, SPECIALS of the live modules)",
     "reference notions coq/Spec/KeySpec.v (shape, name_ok, reachable, valid_config_names, config_ok)",
